@@ -528,7 +528,7 @@ def run_case(case):
                 raise RuntimeError(f"history {_hkey(seed, sub, hist)}: cached "
                                    f"and fresh 'before' texts disagree")
         stats["evals"] += 1
-        cls = res["outcome"].split(":")[0] + ":" + hist[-1]["op"]
+        cls = res["outcome"] + ":" + hist[-1]["op"]
         stats["classes"][cls] = stats["classes"].get(cls, 0) + 1
         if res["outcome"].startswith("applied") and res["changed"]:
             stats["nontrivial"] += 1
